@@ -71,8 +71,10 @@ structure Suite where
   name : String
   /-- 0 unspecified, 1 client, 2 server -/
   mode : Nat
-  /-- `relevant_protocols` is exactly `[PROTOCOL_CONNECT]` (`only`) -/
-  onlyConnect : Bool
+  /-- `relevant_protocols` (1 Connect, 2 gRPC, 3 gRPC-Web); like the other relevant lists assumed
+  free of repetitions where the suite is expanded (a repeated value expands the suite twice:
+  duplicate definitions — C07's `duplicate_error_genuine`) -/
+  protos : List Nat
   /-- `relevant_codecs` (1 proto, 2 json) -/
   codecs : List Nat
   tls : Bool
@@ -138,8 +140,11 @@ def dupCheck : List String → List Case → Option LoadErr
     if runnable c then (if seen.contains c.name then some .duplicateCase else dupCheck (c.name :: seen) cs)
     else dupCheck seen cs
 
+/-- `only(slice, find)`: not empty and nothing but `find` -/
+def only (l : List Nat) (x : Nat) : Bool := !l.isEmpty && l.all (· == x)
+
 def misconfigured (s : Suite) : Bool :=
-  (s.certs && !s.tls) || (s.get && !s.onlyConnect) || (s.cvm == 2 && !s.onlyConnect) || (s.cvm == 1 && !s.onlyConnect)
+  (s.certs && !s.tls) || (s.get && !only s.protos 1) || (s.cvm == 2 && !only s.protos 1) || (s.cvm == 1 && !only s.protos 1)
 
 /-- `populateExpectedResponse` on an expanded case -/
 def populateCheck (c : Case) : Option LoadErr :=
